@@ -262,8 +262,10 @@ class Failure:
         self.message = message
         self.error_class = cls
 
-    def __call__(self, lineno: int, filename: str | None) -> "te.NoReturn":
-        raise self.error_class(self.message, lineno, filename)
+    def __call__(
+        self, lineno: int, name: str | None, filename: str | None
+    ) -> "te.NoReturn":
+        raise self.error_class(self.message, lineno, name, filename)
 
 
 class Token(t.NamedTuple):
@@ -758,7 +760,7 @@ class Lexer:
                     for idx, token in enumerate(tokens):
                         # failure group
                         if isinstance(token, Failure):
-                            raise token(lineno, filename)
+                            raise token(lineno, name, filename)
                         # bygroup is a bit more complex, in that case we
                         # yield for the current token the first named
                         # group that matched
